@@ -11,10 +11,20 @@ from typing import Any
 
 from .._change import CallArg
 from .._change import Delete
+from .._unmanaged import Unmanaged
+from .._unmanaged import is_unmanaged
 from ..syntax_warnings import InlineSnapshotSyntaxWarning
 from .adapter import Adapter
 from .adapter import Item
 from .adapter import adapter_map
+
+
+def is_default_value(default, value) -> bool:
+    # snapshots and other unmanaged values are never compared with the default value,
+    # because this comparison would be recorded by an inner snapshot(...)
+    if isinstance(value, Unmanaged) or is_unmanaged(value):
+        return False
+    return default == value
 
 
 def get_adapter_for_type(value_type):
@@ -256,12 +266,13 @@ class DataclassAdapter(GenericCallAdapter):
                 field_value = getattr(value, field.name)
                 is_default = False
 
-                if field.default != MISSING and field.default == field_value:
+                if field.default != MISSING and is_default_value(
+                    field.default, field_value
+                ):
                     is_default = True
 
-                if (
-                    field.default_factory != MISSING
-                    and field.default_factory() == field_value
+                if field.default_factory != MISSING and is_default_value(
+                    field.default_factory(), field_value
                 ):
                     is_default = True
 
@@ -311,7 +322,7 @@ else:
                             )
                         )
 
-                        if default_value == field_value:
+                        if is_default_value(default_value, field_value):
 
                             is_default = True
 
@@ -364,15 +375,13 @@ else:
                     field_value = getattr(value, name)
                     is_default = False
 
-                    if (
-                        field.default is not PydanticUndefined
-                        and field.default == field_value
+                    if field.default is not PydanticUndefined and is_default_value(
+                        field.default, field_value
                     ):
                         is_default = True
 
-                    if (
-                        field.default_factory is not None
-                        and field.default_factory() == field_value
+                    if field.default_factory is not None and is_default_value(
+                        field.default_factory(), field_value
                     ):
                         is_default = True
 
@@ -418,7 +427,9 @@ class NamedTupleAdapter(GenericCallAdapter):
                 field: Argument(value=getattr(value, field))
                 for field in value._fields
                 if field not in value._field_defaults
-                or getattr(value, field) != value._field_defaults[field]
+                or not is_default_value(
+                    value._field_defaults[field], getattr(value, field)
+                )
             },
         )
 
